@@ -209,8 +209,10 @@ def run_orders(case, stt):
 
 
 def fl_strategy():
+    # (the third: a user subclass of Signal that names its own axes -- axis 0, the time axis, is called something else)
     return st.one_of(G.signal_spec(nmax=400, max_trailing=1, nchan_max=3),
-                     G.signal_spec(nmin=400, nmax=5000, max_trailing=0, nchan_max=2))
+                     G.signal_spec(nmin=400, nmax=5000, max_trailing=0, nchan_max=2),
+                     G.signal_spec(classes=["Signal"], nmax=400, max_trailing=2).map(lambda sp: dict(sp, sub="axes")))
 
 
 def run_fast_len(spec, stt):
@@ -233,6 +235,8 @@ def run_fast_len(spec, stt):
     stt.nt(_nontrivial(n))
     stt.label(spec["cls"])
     stt.label("start" if spec["t0"] else "nostart")
+    if spec.get("sub"):
+        stt.label("user_subclass_%s" % spec["sub"])
 
 
 SUBS = [
